@@ -3,7 +3,7 @@ transactional engine plus the dedicated enumeration (shapes x layouts x tiny bat
 re-grouping, heart-beats under a shortened managed TTL)."""
 from checks.txn_common import run_txn_check
 def run(tier, seed, replay=None):
-    return run_txn_check("C04", [("c04", 3, 1), ("c01", 120, 2000), ("c02", 8, 2), ("c03", 8, 2), ("c06", 100, 1500), ("c01uni", 100, 1500)], tier, seed, replay,
+    return run_txn_check("C04", [("c04", 3, 1), ("c01", 120, 2000), ("c02", 8, 2), ("c03", 8, 2), ("c06", 100, 1500), ("c01uni", 100, 1500), ("c02uni", 24, 3), ("c03uni", 24, 3)], tier, seed, replay,
                          monitors=("ProtocolMonitor",),
                          assumptions=["'advised TTL exceeds the transaction's age' is not checked (age is the client's wall-clock uptime; the harness clock is virtual)",
                                       "one heart-beat after the end of a transaction is tolerated"])
